@@ -2,7 +2,7 @@
     unit, list, prod, sumbool and sumor map to the OCaml types; N, positive, Z and nat stay the
     extracted inductive types. No [Extract Constant], no further [Extract Inductive]. *)
 From Coq Require Import Extraction ExtrOcamlBasic.
-From AnemoVerif Require Import Base Utf8 Bincode Status Wire SizeLimit Timeout.
+From AnemoVerif Require Import Base Utf8 Bincode Status Wire SizeLimit Timeout AuthLayer Inflight Gcra.
 
 Extraction Language OCaml.
 
@@ -16,4 +16,7 @@ Separate Extraction
   Wire.strip_req
   SizeLimit.msg_size_ok SizeLimit.rpc_size_outcome
   Timeout.parse_u64 Timeout.header_timeout Timeout.duration_to_timeout Timeout.effective
-  Timeout.layer_outcome Timeout.rpc_outcome Timeout.timeout_key.
+  Timeout.layer_outcome Timeout.rpc_outcome Timeout.timeout_key
+  AuthLayer.run AuthLayer.allowed_peers AuthLayer.invocations
+  Inflight.step Inflight.gauge Inflight.run
+  Gcra.rate_call Gcra.check_key Gcra.admitted_in.
